@@ -402,6 +402,10 @@ func (g *fastGenerator) fieldItem(field *protogen.Field, fieldname string, messa
 			buf := `dAtA[iNdEx:postIndex]`
 			msgname := g.noStarOrSliceType(field)
 			g.P(`v := &`, msgname, `{}`)
+			// a repeated occurrence of the member that is already set is merged into it
+			g.P(`if o, ok := x.`, fieldname, `.(*`, field.GoIdent, `); ok && o.`, field.GoName, ` != nil {`)
+			g.P(`v = o.`, field.GoName)
+			g.P(`}`)
 			g.decodeMessage("v", buf, field.Message)
 			g.P(`x.`, fieldname, ` = &`, field.GoIdent, `{v}`)
 
